@@ -195,6 +195,8 @@ impl Tzif {
     }
 
     pub fn from_path(path: &Path) -> TemporalResult<Self> {
+        #[cfg(all(temporal_verif, feature = "sys"))]
+        use crate::verif_hooks::tzif;
         tzif::parse_tzif_file(path)
             .map(Into::into)
             .map_err(|e| TemporalError::general(e.to_string()))
